@@ -28,6 +28,7 @@ EXPLANATION = (
     "KEYS-1: the phaseless constant 'h0_prop' built by the propagation builders does not contain the "
     "free-projection energy zero 'ene0'. "
     " PATH-1: hamiltonian.build_propagation_intermediates / build_measurement_intermediates hand back, on every path, what the propagator's / trial's builder returns for the current ham_data (no 'already prepared' shortcut that keeps the intermediates of the previous Hamiltonian). GUARD-1 (field shift): in the Gaussian-ratio term sum(x f - f f / 2) of the importance function the raw fields x are multiplied by the very shift f that is subtracted from them before the Trotter step. "
+    " COV-1 (axis-kind interpreter with a pairing count): in both propagation builders, in the phaseless step and in the free-projection step every reduction over the auxiliary-field index (sum over that axis, einsum index summed out) pairs two tensors carrying the index (mf_shifts**2, x*f - f*f/2, 'g,gik->ik'); a plain sum of one such tensor -- (sum_g s_g)**2 for sum_g s_g**2 -- changes under an orthogonal mixing of the Cholesky vectors and is reported. CACHE-1: no attribute derived from a dataclass field (sqrt(dt)) is stored at construction and read by the steps; the propagators are mutable and hashed by value, a field assigned later must take effect everywhere. "
 )
 NOT_DECIDED = (
     "the whole first sentence of the property: the Gaussian field average, the mean-field subtraction "
